@@ -122,6 +122,8 @@ def standin(rep: Report):
         else:
             j = min(len(p), i + rnd.randint(1, 4))
             cases.append(p[:i] + p[j:])
+    # the hand-written invalid programs also under other layouts (CRLF, no final newline, tabs, form feed, leading comment)
+    cases += [v for p0 in progs[len(pool.PY_STMTS) + len(pool.XSH_STMTS):] for v in pool.layouts(p0)[1:]]
     cases = list(dict.fromkeys(cases))
     res = oracle.run("parse", [{"src": c, "mode": "exec"} for c in cases])
     si = StandIn("error-wellformedness", f"{len(cases)} inputs (pool, hand-written invalid programs, seeded prefixes / insertions / deletions); every SyntaxError/IndentationError "
